@@ -2,7 +2,7 @@
 PROPS["C09"] = {
     "level": "proof",
     "explanation": "(Shared with C20: c20_export_token_tree proves, for every format, the exact sequence of emitting routines of mmd_engine_export_token_tree -- for the packaged HTML formats EPUB/TextBundle the same body writer followed by the same footnote, glossary and citation lists as plain HTML, always wrapped as a complete document: the 'main document equals the plain rendering' clause at the level of the call trace.) epub_create, opendocument_text_create (-> opendocument_core_file_create -> opendocument_core_zip), textbundle_create and itmz_create are verified (goto-instrument --dfcc, real unmodified functions) against a ghost member table: miniz is used through a logging contract (name, buffer, size, flags per mz_zip_writer_add_mem; finalize hands out an uninterpreted archive). Required members are present exactly once, mimetype is member 0 (EPUB: with the EPUB media type; ODT: stored), the main document member is the caller's body, the archive is finalised once after all members and its (pointer,length) is returned in the DString.",
-    "slice": "epub_create, opendocument_text_create, opendocument_core_file_create, opendocument_core_zip, textbundle_create, itmz_create; sub_asset_paths (offset handed to the image pass = length change of the css replacement), traverse_for_images, opendocument_manifest_file, asset_new / store_asset",
+    "slice": "epub_create, opendocument_text_create, opendocument_core_file_create, opendocument_core_zip, textbundle_create, itmz_create; sub_asset_paths (offset handed to the image pass = length change of the css replacement), traverse_for_images, opendocument_manifest_file, asset_new / store_asset; epub_mimetype, epub_container_xml, textbundle_info_json (content of the fixed members)",
     "not_reached": "ZIP validity and CRCs (miniz trusted); that the OPF manifest TEXT names the members (generated text uninterpreted; container.xml's rootfile: c09_epub_static_members; for the ODF manifest: one asset, c09_odf_manifest_assets_*); asset-path consistency (add_assets by contract); equality of the inner document with the plain format's rendering",
     "trusted_base": ["cbmc/goto-cc/goto-instrument 6.11.0 (DFCC instrumentation, MiniSat2)", "miniz (mz_zip_writer_add_mem / finalize_heap_archive by logging contract)", "lib/ds_sink.c (DString specification)", "lib/libc_stubs.c strlen stub, CBMC built-in strcpy"],
     "assumptions": ["content generators (epub_container_xml, epub_package_document, epub_nav, opendocument_*_file, textbundle_info_json), scratch_pad_new/free, zip_new_archive, sub_asset_paths and add_assets are contracts", "body of 2 bytes, source text of at most 1 byte (neither is inspected by the functions under contract; textbundle_create copies the source text)"],
